@@ -7,6 +7,7 @@ import (
 	"net"
 	"net/url"
 	"reflect"
+	"sort"
 	"strings"
 	"sync"
 	"time"
@@ -70,6 +71,37 @@ func (d relayDialer) DialURL(u *transport.URL) (net.Conn, error) {
 	return transport.DialURL(&transport.URL{Scheme: d.inner})
 }
 
+// c19Recorder keeps what it is handed
+type c19Recorder struct{ seen *[]*transport.URL }
+
+func (d c19Recorder) DialURL(u *transport.URL) (net.Conn, error) {
+	*d.seen = append(*d.seen, u)
+	return nil, dialedErr{0}
+}
+
+type c19CtxRecorder struct{ c19Recorder }
+
+func (d c19CtxRecorder) DialURLContext(ctx context.Context, u *transport.URL) (net.Conn, error) {
+	return d.DialURL(u)
+}
+
+func c19URLString(u *transport.URL) string {
+	user := "<nil>"
+	if u.User != nil {
+		user = u.User.String()
+	}
+	var keys []string
+	for k := range u.Params {
+		keys = append(keys, k)
+	}
+	sort.Strings(keys)
+	ps := ""
+	for _, k := range keys {
+		ps += fmt.Sprintf(" %s=%q", k, u.Params[k])
+	}
+	return fmt.Sprintf("scheme=%q host=%q user=%q target=%q digis=%q params:%s", u.Scheme, u.Host, user, u.Target, u.Digis, ps)
+}
+
 type fakeCtxDialer struct{ id int }
 
 func (d fakeCtxDialer) DialURLContext(ctx context.Context, u *transport.URL) (net.Conn, error) {
@@ -110,7 +142,7 @@ func c19Dial(scheme string) string {
 
 func runC19(ctx *Ctx) error {
 	r, res := ctx.Rng, ctx.Res
-	res.Rule = "cases: (a) component tuples (scheme, userinfo, host[:port], 0..8 digis, target with SSID, query) composed into URLs: ParseURL fields vs property statement and vs model parse_url fed with url.Parse's result; (b) raw/mutated strings: no panic, and model agreement whenever url.Parse succeeds on an ASCII path; (c) register/unregister/dial sequences vs model reg_run, plus concurrent goroutines on disjoint schemes. Non-trivial: (a) with >=1 digi or a host parameter, (c) sequences with a dial after a re-registration; distinct by input."
+	res.Rule = "cases: (a) component tuples (scheme, userinfo, host[:port], 0..8 digis, target with SSID, query) composed into URLs: ParseURL fields vs property statement and vs model parse_url fed with url.Parse's result; (b) raw/mutated strings: no panic, and model agreement whenever url.Parse succeeds on an ASCII path; (c) register/unregister/dial sequences vs model reg_run, plus concurrent goroutines on disjoint schemes. The dialer that is reached is handed exactly the parsed URL's components (repeated query parameters included), whether it was registered as a plain or a context-aware dialer. Non-trivial: (a) with >=1 digi or a host parameter, (c) sequences with a dial after a re-registration; distinct by input."
 	var lines, impl []string
 	var cases []interface{}
 	schemes := []string{"ax25", "ardop", "telnet", "serial-tnc", "agwpe", "ax25+linux", "vara", "x"}
@@ -330,6 +362,43 @@ func runC19(ctx *Ctx) error {
 		if i == 0 {
 			res.Sample(map[string]interface{}{"registry_ops": ops, "dial_results": obs})
 		}
+	}
+	// what the dialer reached is handed: exactly the parsed URL's components (repeated parameters
+	// included), for plain and for context-aware dialers, through DialURL and DialURLContext
+	for k := 0; k < ctx.N(40, 400); k++ {
+		scheme := "c19-rec"
+		var seen []*transport.URL
+		rec := c19Recorder{&seen}
+		if k%2 == 0 {
+			transport.RegisterDialer(scheme, rec)
+		} else {
+			transport.RegisterContextDialer(scheme, c19CtxRecorder{rec})
+		}
+		q := []string{"freq=3590&freq=7090&bw=500", "a=1&a=2&a=3", "x=&x=y", "one=1", "k=b&k=a&j=9&k=c", ""}[k%6]
+		raw := scheme + "://" + strings.ToLower(r.Callsign()) + ":pw@" + r.StringFrom("abcdefgh0123", 1+r.Intn(8)) + "/" + r.Callsign() + "/" + r.Callsign()
+		if q != "" {
+			raw += "?" + q
+		}
+		u, err := transport.ParseURL(raw)
+		if err != nil {
+			res.Fail(Failure{Kind: "oracle", Site: "dialer-sees-url", Case: raw, Detail: "ParseURL: " + err.Error()})
+			transport.UnregisterDialer(scheme)
+			continue
+		}
+		want := c19URLString(u)
+		if k%4 < 2 {
+			transport.DialURL(u)
+		} else {
+			transport.DialURLContext(context.Background(), u)
+		}
+		transport.UnregisterDialer(scheme)
+		if len(seen) != 1 {
+			res.Fail(Failure{Kind: "oracle", Site: "dialer-sees-url", Case: raw, Impl: fmt.Sprintf("the registered dialer was reached %d times", len(seen))})
+		} else if got := c19URLString(seen[0]); got != want {
+			res.Fail(Failure{Kind: "oracle", Site: "dialer-sees-url", Case: raw, Impl: got, Detail: "ParseURL gave " + want})
+		}
+		res.Count("dialer-sees-url")
+		res.Eval("rec:"+raw, true)
 	}
 	// concurrent: goroutines on disjoint schemes must each see their own sequential semantics
 	var wg sync.WaitGroup
